@@ -6,7 +6,7 @@
    Part 2: the sender invariant about highest_offset on the data-step states (HInv).
    Part 3: the invariant after reset() (XInv), and the theorems for xreach. *)
 From Coq Require Import ZArith List Bool Lia ZifyBool Permutation.
-From AQ Require Import lib.Base model.RangeSet model.StreamRecv model.StreamSpec model.StreamSend model.NetSys
+From AQ Require Import lib.Base model.RangeSet model.StreamRecv model.StreamSpec model.StreamSend model.NetSys model.NetSysLive
   proofs.RangeSetP proofs.ListZ proofs.StreamRecvP proofs.StreamSendP proofs.NetSysP proofs.NetSysP2 proofs.NetSysP3
   proofs.NetSysP4.
 
